@@ -551,6 +551,67 @@ fn concurrent_readers(rep: &mut Report, seed: u64, secs: f64) {
     }
 }
 
+/// The same sharing, bounded by counts instead of time, for the interpreter: Miri's vector-clock race
+/// detector reports an unsynchronised access pair whether or not the two threads actually collide, and
+/// its borrow tracker reports a node read after it was freed.
+fn concurrent_bounded(rep: &mut Report, seed: u64, updates: u64, snapshots_per_reader: u64) {
+    use std::sync::atomic::{AtomicU64, Ordering};
+    use std::sync::{Arc, Mutex};
+    let n: usize = 10;
+    let list: Arc<SkipList<Vec<u8>, f64>> = Arc::new(SkipList::new());
+    let names: Vec<Vec<u8>> = (0..n).map(|i| format!("m{:03}", i).into_bytes()).collect();
+    for (i, m) in names.iter().enumerate() {
+        list.insert(m.clone(), (i % 4) as f64);
+    }
+    let snapshots = Arc::new(AtomicU64::new(0));
+    let problems: Arc<Mutex<Vec<(String, String)>>> = Arc::new(Mutex::new(Vec::new()));
+    let mut readers = Vec::new();
+    for r in 0..2u64 {
+        let (list, snapshots, problems) = (list.clone(), snapshots.clone(), problems.clone());
+        readers.push(std::thread::spawn(move || {
+            for _ in 0..snapshots_per_reader {
+                let items = if r == 1 { list.range_by_rank(0, usize::MAX - 1).items } else { list.get_all_items() };
+                snapshots.fetch_add(1, Ordering::Relaxed);
+                let mut seen: Vec<&Vec<u8>> = items.iter().map(|(m, _)| m).collect();
+                seen.sort();
+                seen.dedup();
+                let sorted = items.windows(2).all(|w| item_cmp(&w[0], &w[1]) == std::cmp::Ordering::Less);
+                if items.len() != n || seen.len() != n || !sorted {
+                    let mut p = problems.lock().unwrap();
+                    if p.len() < 4 {
+                        p.push((if sorted { "member-missing-or-twice" } else { "snapshot-unsorted" }.to_string(),
+                                format!("snapshot during re-scoring: {} entries, {} distinct of {}: {}", items.len(), seen.len(), n, show_items(&items[..items.len().min(12)]))));
+                    }
+                }
+                std::thread::yield_now();
+            }
+        }));
+    }
+    let mut rng = Rng::new(mix(seed, 78, 0));
+    for k in 0..updates {
+        let m = &names[rng.usize_below(n)];
+        let sc = if rng.below(3) == 0 { (rng.below(4)) as f64 } else { rng.below(64) as f64 / 8.0 };
+        list.insert(m.clone(), sc);
+        if k % 4 == 0 {
+            std::thread::yield_now();
+        }
+    }
+    for r in readers {
+        let _ = r.join();
+    }
+    rep.evaluations += updates;
+    rep.cell("concurrent/re-score-vs-snapshots");
+    rep.extra_num("concurrent_updates", updates);
+    rep.extra_num("concurrent_snapshots", snapshots.load(Ordering::Relaxed));
+    for (sig, detail) in problems.lock().unwrap().iter() {
+        rep.violation(format!("concurrent/{}", sig), detail.clone(), format!("concurrent:{}", seed));
+    }
+    let inv = list.verif_check_invariants();
+    if !inv.is_empty() {
+        rep.violation("concurrent/invariant", inv.join("; "), format!("concurrent:{}", seed));
+    }
+}
+
 fn absorb(rep: &mut Report, r: HistResult, replay: String, kind: &str) {
     rep.evaluations += r.ops;
     for c in &r.cells {
@@ -611,6 +672,7 @@ fn main() {
         let res = run_history(hseed, nops, pool, 8);
         rep.extra_num("max_members", res.maxlen);
         absorb(&mut rep, res, format!("hist:{}:{}:{}:8", hseed, nops, pool), "miri");
+        concurrent_bounded(&mut rep, args.seed, 60, 8);
         rep.extra_str("mode", "miri");
         rep.extra_num("seed", args.seed);
         rep.emit();
